@@ -5,6 +5,7 @@ from .lib.witness import PRELUDE, run_witness
 SELECT = r'^bluetoe::details::client_characteristic_configuration::|^bluetoe::details::client_characteristic_configurations::|^bluetoe::details::generate_attribute::access$|^bluetoe::server::notification_subscription_changed$'
 UNITS = lambda u: u in ('w_inst_att',) or u.startswith('t_char') or u.startswith('t_att_notification')
 CC = 'bluetoe::details::client_characteristic_configuration::'
+EXACT = ('cccd-indices-permutation',)   # verdicts computed from the meaning of the code (compiler / folding / symbolic terms): not gated by the golden structure
 META = {
     'level': 'packing shape: flags(i) / flags(i, v) address byte i / D and bit offset (i % D) * B with a mask of B bits, D * B == 8, the setter keeps all other bits (old & ~mask) and masks the new value with 0x03, '
              'the store is sized (Size * B + 7) / 8 and lives in the per-connection data; the CCCD attribute uses one position (index_of<ClientCharacteristicIndex, CCCDIndices>) for every flags() call and '
